@@ -34,7 +34,7 @@ from vf import core
 from vf.gen import species as S
 
 ID = 'C11'
-N = {'quick': 3000, 'thorough': 70000}
+N = {'quick': 5000, 'thorough': 100000}
 NT_RULE = ('one object tree per case: class drawn uniformly from the 33 classes of the quantifier, '
            'attributes and nested objects drawn from a PRNG seeded per case index (after directed '
            'witnesses of every pre-finding); 1-3 encode/decode cycles and 2-3 evaluation conditions; '
